@@ -135,7 +135,8 @@ class SimSocket(object):
 
   # -- socket API used by pox ------------------------------------------
   def fileno(self):
-    return self.fd
+    # like a real socket object: -1 once closed (select() then raises)
+    return -1 if self.closed else self.fd
 
   def setblocking(self, b):
     self.blocking = bool(b)
@@ -540,9 +541,14 @@ class Sim(object):
 
   # -- select -----------------------------------------------------------
   def _w(self, obj):
-    if isinstance(obj, (SimSocket, SimPinger)):
+    if isinstance(obj, SimPinger):
       return obj
-    return self.fds[obj.fileno()]
+    fd = obj.fileno()
+    if fd < 0:
+      # what select.select() does for a closed socket object
+      self.stats["select_on_closed"] += 1
+      raise ValueError("file descriptor cannot be a negative integer (-1)")
+    return self.fds[fd]
 
   def _fdkey(self, obj):
     return obj.fd if isinstance(obj, (SimSocket, SimPinger)) else obj.fileno()
